@@ -93,7 +93,7 @@ contract("nucs/solvers/bound_consistency_algorithm.py::bound_consistency_algorit
     calls=BASE.calls, ghost_calls=BASE.extra["ghost_calls"], ghost=BASE.ghost, defs=BASE.extra["defs"], call_ghosts=BASE.extra["call_ghosts"],
     ghost_results={"pop_propagator": "q0"}, ghost_init={"dch": 0},
     modifies=BASE.modifies, loops={1: lo1, 2: lo2, 3: lo3},
-    ensures=[("C01.accept", f"implies(result != PROBLEM_INCONSISTENT, forall(p, 0, P, implies({NEs}[{TOP}, p] and onpoint({SS}, {TOP}, p), rel_holds(p))))"),
+    ensures=CA_FRAME + [CA_SHRINK, CA_STATUS, CA_BOUND, CA_UNBOUND, ("C17.others", OTHER_STATS)] + [("C01.accept", f"implies(result != PROBLEM_INCONSISTENT, forall(p, 0, P, implies({NEs}[{TOP}, p] and onpoint({SS}, {TOP}, p), rel_holds(p))))"),
              ("C01.J", f"implies(result != PROBLEM_INCONSISTENT, {ACC_J(SS)})"),
              ("C01.queue_empty", "implies(result != PROBLEM_INCONSISTENT, forall(p, 0, P, implies(triggered_propagators[p], False) or True))")],
     tags={"C01": ["C01"]}, arities=[], timeout_ms=200000)
